@@ -33,7 +33,7 @@ var scFaultsByBody = map[string][]string{
 	"nsc":      {},
 }
 
-var scAllFaultKinds = []string{"gm", "gs", "u", "x", "s", "b", "c", "r", "a", "y", "p", "f", "m"}
+var scAllFaultKinds = []string{"gm", "gs", "u", "x", "s", "b", "c", "r", "a", "y", "p", "f", "m", "n"}
 
 type scGenOp struct {
 	body   string // s-expression text
@@ -73,7 +73,7 @@ func scPickBody(g *core.Gen, ks bool, focus string, inTx bool) (body, kind strin
 	}
 	cands := []cand{
 		{10, func() (string, string, bool) { k := qk(); return "(q u " + k + ")", "qu", k != "w" }},
-		{12, func() (string, string, bool) { return "(q s " + qk() + " " + slices() + ")", "qs", false }},
+		{12, func() (string, string, bool) { k := qk(); return "(q s " + k + " " + slices() + ")", "qs", k != "w" }},
 		{2, func() (string, string, bool) { return "(show)", "show", true }},
 		{2, func() (string, string, bool) { return "(fl)", "fl", false }},
 		{6, func() (string, string, bool) { return "(begin)", "begin", false }},
@@ -147,6 +147,8 @@ func scGenFaults(g *core.Gen, kind string, reads bool, pFault int, allowTimeout 
 				if reads {
 					mode = "more"
 				}
+			case 2:
+				mode = "mres"
 			}
 		}
 		if k == "m" && !reads {
@@ -155,6 +157,9 @@ func scGenFaults(g *core.Gen, kind string, reads bool, pFault int, allowTimeout 
 		out = append(out, fmt.Sprintf("(%s %d %s)", k, slice, mode))
 		if mode == "more" && g.Intn(2) == 0 {
 			out = append(out, fmt.Sprintf("(m %d e)", slice))
+		}
+		if mode == "mres" && g.Intn(3) == 0 {
+			out = append(out, fmt.Sprintf("(n %d %s)", slice, core.Pick(g, []string{"e", "e", "z"})))
 		}
 	}
 	return out
@@ -187,6 +192,8 @@ func scEmit(g *core.Gen, ks bool, user string, fb bool, ops []scGenOp, extra ...
 				t = "fault-timeout"
 			} else if strings.HasSuffix(f, " more)") {
 				t = "streamed-result"
+			} else if strings.HasSuffix(f, " mres)") {
+				t = "more-results"
 			}
 			if !seen[t] {
 				seen[t] = true
@@ -281,6 +288,8 @@ func scGenerate(g *core.Gen, focus string) {
 		{"no-tx", false, []string{"(q u r);qu", "(q s r 0 1);qs", "(show);show", "(fl);fl", "(q u w);qu", "(quit);quit"}},
 		{"ks-life", true, []string{"(q u r);qu", "(q s w 0 1);qs", "(ping);ping", "(begin);begin", "(q u w);qu", "(commit);commit", "(nsc);nsc", "(q u r);qu", "(quit);quit"}},
 		{"ks-tx-nsc", true, []string{"(q s w 0 1);qs", "(begin);begin", "(q u w);qu", "(nsc);nsc", "(q u w);qu", "(q u r);qu"}},
+		{"tx-shard-reads", false, []string{"(begin);begin", "(q s r 0 1);qs", "(q s w 0 1);qs", "(q s r 1);qs", "(q u r);qu", "(rollback);rollback", "(q s r 0 1);qs", "(quit);quit"}},
+		{"ks-tx-shard", true, []string{"(q s r 0 1);qs", "(begin);begin", "(q s w 0 1);qs", "(q u w);qu", "(q s r 1);qs", "(commit);commit", "(q s r 0 1);qs", "(quit);quit"}},
 		{"ks-autocommit-off", true, []string{"(q u r);qu", "(ac 0);ac", "(q s w 0 1);qs", "(commit);commit", "(ping);ping", "(ac 1);ac", "(nsc);nsc", "(ping);ping", "(disc);disc"}},
 	}
 	for _, t := range tmpls {
@@ -314,14 +323,17 @@ func scGenerate(g *core.Gen, focus string) {
 								modes = append(modes, "z")
 							}
 							if k == "x" {
-								modes = append(modes, "more")
-								if user == "w" && fb && slice == 0 {
+								modes = append(modes, "more", "mres")
+								if user == "w" && fb {
 									modes = append(modes, "t")
 								}
 							}
 							for _, m := range modes {
-								kind := strings.Split(t.ops[fi], ";")[1]
-								if m == "more" && !(kind == "qu" && strings.HasSuffix(strings.Split(t.ops[fi], ";")[0], " r)")) {
+								body := strings.Split(t.ops[fi], ";")[0]
+								if m == "more" && !strings.HasPrefix(body, "(q u r") && !strings.HasPrefix(body, "(q s r") {
+									continue
+								}
+								if m == "mres" && !strings.HasPrefix(body, "(q ") && body != "(show)" {
 									continue
 								}
 								if g.Tier == "quick" && g.Intn(5) != 0 {
@@ -344,6 +356,8 @@ func scGenerate(g *core.Gen, focus string) {
 			{body: "(q u w)", kind: "qu"},
 			{body: "(q u w)", kind: "qu", faults: []string{"(x 0 e)"}},
 			{body: "(q s w 0 1)", kind: "qs", faults: []string{"(x 1 z)"}},
+			{body: "(q s r 0 1)", kind: "qs", faults: []string{"(x 0 more)", "(m 0 e)"}},
+			{body: "(q u r)", kind: "qu", faults: []string{"(x 0 mres)"}},
 			{body: "(q u w)", kind: "qu", faults: []string{"(b 0 e)", "(a 0 e)"}},
 			{body: "(q s w 0 1)", kind: "qs"},
 			{body: "(q s w 0 1)", kind: "qs", faults: []string{"(gm 1 e)"}},
@@ -382,7 +396,7 @@ var scAssumptions = []string{
 	"one step of the model = one iteration of Session.Run; a namespace reload happens between two commands of the session, never during one",
 	"Go's map iteration order is an explicit input of the model (theorems quantify over it); the harness re-runs a command from a snapshot until the runtime happens to pick the prescribed order",
 	"backend behaviour is that of the fake pools/connections of the harness: a call fails only as scripted or on a closed connection; pooledConnectImpl.Recycle releases the slot exactly once per call; ConnectionPool.Put resets a reused connection (ResetConnection), so a returned connection carries no open transaction",
-	"the goroutine-level race of a statement timeout on the sharded path is represented by the in-flight flag of the connection only (the Go scheduler is not modelled)",
+	"the goroutine-level race of a statement timeout is represented by the in-flight flag of the connection only (the Go scheduler is not modelled): on both execution paths the connection is closed before the session's next bookkeeping step, which is what the model's atomic timeout-then-close step states",
 	"which statements go to a replica is taken from the real planner/checkExecuteFromSlave for a fixed menu of statements (C22 owns that decision)",
 }
 
